@@ -180,11 +180,18 @@ func (c *caseCtx) runBoth(tree *gen.Expr, expr string, doc interface{}) (ref.Res
 	return res, o1, ok && ok2 && ok3
 }
 
-// runOne uses the one-shot API only (for the very large enumerations, where
-// C13 already establishes one-shot ≡ compiled).
+// runOne makes one call per case (for the very large enumerations), through the one-shot Search for
+// even case numbers and through Compile + Search for odd ones.
 func (c *caseCtx) runOne(tree *gen.Expr, expr string, doc interface{}) (ref.Result, mon.Observed, bool) {
 	res := ref.RefSet(tree, doc, gen.Quirks{})
 	poison(c.idx)
+	// one entry point per case, alternating: what only Compile does (rewrites, caches, eager checks) must
+	// not hide from the large enumerations either
+	if c.idx%2 == 1 {
+		o1 := apiCompiledSearch(expr, mon.DeepCopy(doc))
+		ok := c.judge(tree, expr, doc, "Compile+Search", o1, res)
+		return res, o1, ok
+	}
 	o1 := apiSearch(expr, mon.DeepCopy(doc))
 	ok := c.judge(tree, expr, doc, "Search", o1, res)
 	return res, o1, ok
